@@ -406,6 +406,136 @@ def instances_independent(ctx, form="scalar"):
     ctx.prove("objects do not share their parameter record", a.params is not b.params and a.params.eigenstrain is not b.params.eigenstrain)
 
 
+def instances_by_name(ctx, name="sphere"):
+    """objects whose shape was chosen BY NAME ('sphere', 'cube', 'constant') own their description: the earlier object still
+    computes with ITS stiffness and eigenstrain after a later one was created and configured"""
+    Ga = ctx.real("Ga", (0.5, 2.0)); nua = ctx.real("nua", (0.05, 0.45)); Gb = ctx.real("Gb", (0.5, 2.0)); nub = ctx.real("nub", (0.05, 0.45))
+    R = ctx.real("R", (0.5, 2.0))
+    for (G, nu) in ((Ga, nua), (Gb, nub)):
+        ctx.assume(G > 0); ctx.assume(nu > -1); ctx.assume(2 * nu < 1)
+    ctx.assume(R > 0)
+    eA, eB = 0.01, 0.03
+    rr = [R, R, R]
+    V = 4 * np.pi / 3 * R ** 3
+    closed = lambda G, nu, e: 2 * G * (1 + nu) / (1 - nu) * e ** 2 * V
+    lam = lambda G, nu: 2 * G * nu / (1 - 2 * nu)
+    if name == "constant":
+        a = StrainEnergy("constant"); b = StrainEnergy("constant"); c = StrainEnergy()
+        objs = (a, b, c)
+    else:
+        a = StrainEnergy(name); a.setElasticConstants(lam(Ga, nua) + 2 * Ga, lam(Ga, nua), Ga); a.setEigenstrain(eA)
+        first = a.compute(rr) * 1
+        b = StrainEnergy(name); b.setElasticConstants(lam(Gb, nub) + 2 * Gb, lam(Gb, nub), Gb); b.setEigenstrain(eB)
+        c = StrainEnergy(); c.setShape(name)
+        ua, ub = a.compute(rr) * 1, b.compute(rr) * 1
+        ctx.observe("ua", ua); ctx.observe("ub", ub)
+        # for an isotropic matrix the cubic-anisotropy terms of Khachaturyan's formula vanish: cube and sphere share the closed form
+        ctx.prove("earlier object: energy equals the closed form of ITS stiffness and eigenstrain after the later object was configured", ctx.eq(ua, closed(Ga, nua, eA)))
+        ctx.prove("earlier object: energy unchanged by creating the later object", ctx.eq(ua, first))
+        ctx.prove("later object: energy equals the closed form of its stiffness and eigenstrain", ctx.eq(ub, closed(Gb, nub, eB)))
+        a.setEigenstrain(2 * eA)
+        ctx.prove("earlier object reacts to its own eigenstrain: doubled -> energy x 4", ctx.eq(a.compute(rr) * 1, 4 * first))
+        ctx.prove("later object unaffected by the earlier object's new eigenstrain", ctx.eq(b.compute(rr) * 1, ub))
+        objs = (a, b, c)
+    want = {"sphere": SphericalEnergyDescription, "cube": CuboidalEnergyDescription, "constant": ConstantEnergyDescription}[name]
+    ctx.prove("description has the named type", all(type(o.description) is want for o in objs))
+    ctx.prove("every object's description reads that object's own parameter record", all(o.description.params is o.params for o in objs))
+    ctx.prove("objects do not share a description object", len({id(o.description) for o in objs}) == len(objs))
+    if name == "constant":
+        a.setConstantElasticEnergy(5.0); b.setConstantElasticEnergy(7.0)
+        ua, ub = a.compute(rr) * 1, b.compute(rr) * 1
+        ctx.observe("ua", ua)
+        ctx.prove("constant energy: earlier object keeps its own value", ctx.all([ctx.eq(ua, 5.0 * V), ctx.eq(ub, 7.0 * V)]))
+        ctx.prove("an untouched object has zero constant energy", ctx.eq(c.compute(rr) * 1, 0.0 * V, atol=1e-300))
+
+
+# ------------------------------------------------------------------------------------------------ the phi/theta grid option
+
+def grid_nodes(ctx, phiInt=2, thetaInt=3, sym=True):
+    """real setIntegrationIntervals (concrete small interval counts, phiInt != thetaInt): the nodes are the centres of the
+    phiInt x thetaInt equal cells of [0, phi_max] x [0, theta_max], each combination once, weight sin(theta), and
+    8 dA sum(w) is the midpoint-rule value of the sphere area 4 pi (exact trigonometric sum)"""
+    import math
+    d = _ell()
+    d.setIntegrationIntervals(phiInt, thetaInt, assumeSymmetric=sym)
+    phiMax, thMax = (math.pi / 2, math.pi / 2) if sym else (2 * math.pi, math.pi)
+    dphi, dth = phiMax / phiInt, thMax / thetaInt
+    phi = [float(x) for x in np.array(d.midPhiGrid).ravel()]; th = [float(x) for x in np.array(d.midThetaGrid).ravel()]
+    w = [float(x) for x in np.array(d.midWeights).ravel()]
+    ctx.observe("phi", phi); ctx.observe("theta", th); ctx.observe("dA", float(d.dA))
+    close = lambda x, y: abs(x - y) <= 1e-12 * max(1.0, abs(x), abs(y))
+    ctx.prove("one node per cell", len(phi) == len(th) == len(w) == phiInt * thetaInt)
+    cells = sorted((round(p / dphi - 0.5), round(t / dth - 0.5)) for p, t in zip(phi, th))
+    ctx.prove("every (phi cell, theta cell) combination occurs exactly once", cells == sorted((i, j) for i in range(phiInt) for j in range(thetaInt)))
+    ctx.prove("phi nodes are the centres of equal sub-intervals of [0, phi_max]", all(close(p, (round(p / dphi - 0.5) + 0.5) * dphi) for p in phi))
+    ctx.prove("theta nodes are the centres of equal sub-intervals of [0, theta_max]", all(close(t, (round(t / dth - 0.5) + 0.5) * dth) for t in th))
+    ctx.prove("nodes stay inside the integration domain", all(0 < p < phiMax for p in phi) and all(0 < t < thMax for t in th))
+    ctx.prove("weights are sin(theta)", all(close(x, math.sin(t)) for x, t in zip(w, th)))
+    ctx.prove("dA is the cell area (1/8 of it over the full sphere, sphInt multiplies by 8)", close(float(d.dA), dphi * dth * (1.0 if sym else 0.125)))
+    total = 8 * float(d.dA) * sum(w)
+    exact_mid = (8 if sym else 1) * phiMax * dth * math.sin(thMax / 2) ** 2 / math.sin(dth / 2)     # sum_j sin((j + 1/2) h) = sin^2(n h / 2) / sin(h / 2)
+    ctx.prove("8 dA sum(w) is the midpoint-rule value of the sphere area", close(total, exact_mid))
+    ctx.prove("... which is 4 pi up to the midpoint-rule error", abs(total - 4 * math.pi) <= 4 * math.pi * dth ** 2 / 12)
+    s = ctx.real("s", (0.5, 2.0))      # the harness has no symbolic input of its own; a trivial one keeps the vacuity twin meaningful
+    ctx.prove("(solver witness)", ctx.eq(s + s, 2 * s))
+
+
+def grid_octant(ctx, n=12):
+    """PENDING (violated on the unchanged tree): with the default assumeSymmetric=True the grid option integrates one octant
+    and multiplies by 8; the components of D that are odd in a direction cosine do not vanish over one octant"""
+    import math
+    G, nu, eps = 57.1e9, 0.33, 0.01
+    res = {}
+    for sym in (True, False):
+        se = StrainEnergy("ellipsoid"); se.setElasticConstants(2 * G * (1 - nu) / (1 - 2 * nu), 2 * G * nu / (1 - 2 * nu), G); se.setEigenstrain(eps)
+        d = se.description
+        d.setIntegrationIntervals(n if sym else 4 * n, n if sym else 2 * n, assumeSymmetric=sym)
+        r = np.array([4e-9, 4e-9, 4e-9])
+        S = d.Sijmn(d.Dijkl(r, se.params.cMatrix_4th))
+        se.setElasticConsantsPrecipitate(2 * 2 * G * (1 - 0.2) / (1 - 0.4), 2 * 2 * G * 0.2 / (1 - 0.4), 2 * G)
+        res[sym] = (S, float(se.compute(r)))
+    S = res[True][0]
+    odd = [(i, j, k, l) for (i, j, k, l) in IDX4 if any((i, j, k, l).count(v) % 2 for v in R3)]
+    ctx.observe("S1211", float(S[0, 1, 0, 0])); ctx.observe("Einhom", res[True][1])
+    ctx.prove("full-sphere grid: components of the Eshelby tensor that are odd in an index vanish (textbook 0)", all(abs(float(res[False][0][q])) < 1e-6 for q in odd))
+    ctx.prove("symmetric (default) grid: components of the Eshelby tensor that are odd in an index vanish (textbook 0)", all(abs(float(S[q])) < 1e-6 for q in odd))
+    ctx.prove("symmetric (default) grid: inhomogeneous-sphere energy agrees with the full-sphere grid within 2 %", abs(res[True][1] / res[False][1] - 1) < 0.02)
+    s = ctx.real("s", (0.5, 2.0))
+    ctx.prove("(solver witness)", ctx.eq(s + s, 2 * s))
+
+
+def applied_stress_order(ctx):
+    """PENDING (violated on the unchanged tree): update() rotates the STORED applied stress again on every call, so the stored
+    applied stress depends on the order and number of setter calls"""
+    a = ctx.real("ra", (-1.0, 1.0)); b = ctx.real("rb", (-1.0, 1.0))
+    zero, one = 0.0 * a, 1.0 + 0.0 * a
+    Rm = [[a, -b, zero], [b, a, zero], [zero, zero, one]]
+    sg = ctx.reals("sig", 6, (0.5, 2.0))
+    ctx.assume(sg[0] > 0); ctx.assume(a > 0); ctx.assume(b > 0)
+    sig = [[sg[0], sg[5], sg[4]], [sg[5], sg[1], sg[3]], [sg[4], sg[3], sg[2]]]
+    c11 = ctx.real("c11", (2.0, 3.0)); c12 = ctx.real("c12", (0.5, 1.5)); c44 = ctx.real("c44", (0.5, 1.5))
+    ctx.assume(c12 > 0); ctx.assume(c44 > 0); ctx.assume(c11 > c12)
+    objs = []
+    for perm in (("R", "A", "M", "P"), ("R", "A", "P", "M"), ("A", "M", "R", "P"), ("M", "R", "A", "P"), ("A", "R", "M", "P"), ("M", "A", "R", "P")):
+        se = StrainEnergy()
+        for op in perm:
+            if op == "A": se.setAppliedStress(sig)
+            elif op == "R": se.setRotationMatrix(Rm)
+            elif op == "M": se.setElasticConstants(c11, c12, c44)
+            else: se.setElasticConsantsPrecipitate(c11 + 1, c12, c44)
+        objs.append((",".join(perm), se))
+    ref = np.array(objs[0][1].params.appliedStress)
+    ctx.observe("stress", ref)
+    for name, se in objs[1:]:
+        x = np.array(se.params.appliedStress)
+        ctx.prove("every order: same stored applied stress", ctx.all([ctx.eq(x[i, j], ref[i, j], atol=1e-12) for i in R3 for j in R3]), note=name)
+
+
+def _cut_inv(a):
+    """np.linalg.inv cut: the result (applied strain) is not examined"""
+    return np.zeros(np.shape(a))
+
+
 # ------------------------------------------------------------------------------------------------ rotations and setter order
 
 def _rot_ref(R, c4):
@@ -931,6 +1061,15 @@ HARNESSES = [
     Harness("C16.instances_independent", instances_independent, functions=_F_SE + [SphericalEnergyDescription._Khachaturyan],
             assumptions=["G > 0, -1 < nu < 1/2, R > 0 symbolic; eigenstrains concrete (0.01, 0.02, and a full tensor followed by 0.01)"],
             params={"quick": [{"form": "scalar"}, {"form": "vector"}], "thorough": [{"form": "scalar"}, {"form": "vector"}]}),
+    Harness("C16.instances_by_name", instances_by_name, functions=_F_SE + [SphericalEnergyDescription._Khachaturyan, SphericalEnergyDescription.computeStrainEnergy,
+                                                                      CuboidalEnergyDescription.computeStrainEnergy, ConstantEnergyDescription.computeStrainEnergy, _SE.setConstantElasticEnergy],
+            assumptions=["two isotropic matrices (Ga, nua), (Gb, nub) symbolic, R > 0; eigenstrains 0.01 and 0.03 concrete"],
+            params={"quick": [{"name": "sphere"}, {"name": "cube"}, {"name": "constant"}], "thorough": [{"name": "sphere"}, {"name": "cube"}, {"name": "constant"}]}),
+    Harness("C16.grid_nodes", grid_nodes, functions=[_E.setIntegrationIntervals],
+            assumptions=["interval counts are concrete small integers; node positions compared to 1e-12 (doubles)"],
+            params={"quick": [{"phiInt": 2, "thetaInt": 3, "sym": True}, {"phiInt": 5, "thetaInt": 2, "sym": True}, {"phiInt": 3, "thetaInt": 3, "sym": False}, {"phiInt": 4, "thetaInt": 3, "sym": False},
+                              {"phiInt": 6, "thetaInt": 3, "sym": False}],
+                    "thorough": [{"phiInt": p_, "thetaInt": t_, "sym": s_} for p_ in (1, 2, 3, 7) for t_ in (1, 2, 4, 5) for s_ in (True, False)]}),
     Harness("C16.setter_order", setter_order, functions=_F_SE + [elasticConstantToC], opts={"ob_timeout": 30.0, "name_threshold": 10 ** 6},
             assumptions=["R arbitrary real 3x3 (orthogonality not needed for this clause); cubic stiffness c11, c44 > 0"],
             params={"quick": [{"target": "matrix"}, {"target": "prec"}, {"target": "matrix", "shape": "ellipsoid"}],
@@ -984,6 +1123,12 @@ PENDING = [
             assumptions=["solid with E > 0 and -1 < nu < 0; its (E, M) pair handed to moduliToC"],
             doc="an auxetic solid (nu < 0) is not recovered from its (E, M) pair: moduliToC always takes the nu > 0 root of the quadratic",
             params={"quick": [{"nu_sign": "negative"}], "thorough": [{"nu_sign": "negative"}]}),
+    Harness("C16.grid_octant", grid_octant, functions=[_E.setIntegrationIntervals, _E.sphInt, _E.Dijkl, _E.Sijmn, _E.strainEnergyBohm],
+            assumptions=["isotropic matrix G = 57.1 GPa, nu = 0.33, sphere of 4 nm, precipitate twice as stiff; 12 x 12 octant grid vs 48 x 24 full-sphere grid (concrete numbers)"],
+            params={"quick": [{"n": 12}], "thorough": [{"n": 12}]}),
+    Harness("C16.applied_stress_order", applied_stress_order, functions=_F_SE + [_SE.setAppliedStress, _SE._computeAppliedStrain], opts={"name_threshold": 10 ** 6, "inv_hook": _cut_inv}, validate=1,
+            assumptions=["symmetric applied stress (sig_11 > 0), rotation about z with arbitrary entries, cubic stiffness"], stubs=["np.linalg.inv in _computeAppliedStrain: cut (applied strain not examined)"],
+            params={"quick": [{}], "thorough": [{}]}),
 ]
 import os as _os
 if _os.environ.get("VK_PENDING"):
